@@ -970,3 +970,17 @@ Theorem conc_participant_ids_distinct progs σ t1 t2 T1 T2 inc p :
   let st := sched_run true (cinit progs) σ in
   t1 ≠ t2 → k_thr st !! t1 = Some T1 → k_thr st !! t2 = Some T2 → claims T1 inc p → claims T2 inc p → False.
 Proof. intros H st. apply (ci_claim_uniq _ _ (reachable_cinv progs σ H)). Qed.
+
+(* the session-id clause of C10 under concurrent creations, joins and departures: at every moment two session
+   objects that still own their numeric id (not ended, or still filed in the registry) never share it, such an id is
+   never recyclable, and it was issued by the generator (≤ its counter) *)
+Theorem conc_session_ids_distinct progs σ i1 R1 i2 R2 :
+  N.of_nat (length σ) < two32 →
+  let st := sched_run true (cinit progs) σ in
+  k_heap st !! i1 = Some R1 → k_heap st !! i2 = Some R2 → holds st i1 R1 → holds st i2 R2 →
+  (r_id R1 = r_id R2 → i1 = i2) ∧ r_id R1 ∉ g_reuse (k_ids st) ∧ r_id R1 ≤ g_cur (k_ids st).
+Proof.
+  intros H st H1 H2 Hh1 Hh2. pose proof (reachable_cinv progs σ H) as I. split.
+  - by apply (ci_uniq _ _ I i1 R1 i2 R2).
+  - by apply (ci_held _ _ I i1 R1).
+Qed.
